@@ -57,6 +57,7 @@ type ChildSpec struct {
 	Async     bool      `json:"async"`
 	DisableAC bool      `json:"disable_assets"`
 	MaxHops   int       `json:"max_hops"`
+	Proxy     bool      `json:"proxy,omitempty"` // --proxy socks5://<local proxy>: the archiver uses its proxied WARC client
 	Resources []ResSpec `json:"resources"`
 	Seeds     [][]int   `json:"seeds"` // indices into Resources: one index = a seed fetched itself; more = an already archived seed (first) with the others as its assets
 	TimeoutMs int       `json:"timeout_ms"`
@@ -83,14 +84,15 @@ type ItemOut struct {
 }
 
 type ChildResult struct {
-	Items        []ItemOut `json:"items"`
-	BadFiles     []string  `json:"bad_files"`
-	Files        int       `json:"files"`
-	OtherRecs    int       `json:"other_records"` // records at the end that are neither warcinfo nor about a requested URL
-	BadRecs      []string  `json:"bad_records"`
-	TimedOut     bool      `json:"timed_out"`
-	StopMs       int64     `json:"stop_ms"`
-	EmptyMembers int       `json:"empty_members"`
+	Items         []ItemOut `json:"items"`
+	BadFiles      []string  `json:"bad_files"`
+	Files         int       `json:"files"`
+	OtherRecs     int       `json:"other_records"` // records at the end that are neither warcinfo nor about a requested URL
+	BadRecs       []string  `json:"bad_records"`
+	TimedOut      bool      `json:"timed_out"`
+	StopMs        int64     `json:"stop_ms"`
+	EmptyMembers  int       `json:"empty_members"`
+	ProxyConnects int64     `json:"proxy_connects"`
 	// every revisit record refers to a stored response record with the same payload digest and that URI
 	RevisitsOK bool `json:"revisits_ok"`
 }
@@ -276,6 +278,9 @@ func runWarcChild(specPath string) {
 	c.HTTPTimeout, c.HTTPReadDeadline = -1, 60
 	c.NoStdoutLogging, c.NoStderrLogging, c.NoFileLogging = true, true, true
 	c.UserAgent = "zv-c02"
+	if sp.Proxy {
+		c.Proxy = "socks5://" + startSocks5()
+	}
 	must(config.GenerateCrawlConfig())
 	must(os.MkdirAll(c.JobPath, 0o755))
 	warcDir := filepath.Join(c.JobPath, "warcs")
@@ -430,6 +435,7 @@ loop:
 	}
 	res.BadFiles = snap.BadFiles
 	res.EmptyMembers = snap.EmptyMembers
+	res.ProxyConnects = socksConnects.Load()
 	res.Files = snap.fileCount()
 	outj, _ := json.Marshal(res)
 	must(os.WriteFile("result.json", outj, 0o644))
